@@ -83,12 +83,14 @@ structure Method where
   hasConfig : Bool := false
   path      : Str := []
   verbNum   : Nat := 0
+  headers   : List Str := []    -- names of the method-level header declarations
 deriving Repr, Inhabited
 
 structure Service where
   name    : Str
   base    : Str := []
   methods : List Method := []
+  headers : List Str := []      -- names of the service-level header declarations
 deriving Repr, Inhabited
 
 structure File where
